@@ -1811,7 +1811,14 @@ fn read_residuals<R: BitRead, I: SignedInteger>(
         let partition_order = reader.read::<4, u32>()?;
         let partition_count = 1 << partition_order;
 
-        let partitions = residuals.rchunks_mut(block_size / partition_count).rev();
+        // a partition order too large for the block leaves
+        // no samples per partition, which can't be chunked
+        let partition_len = match block_size / partition_count {
+            0 => return Err(Error::InvalidPartitionOrder),
+            len => len,
+        };
+
+        let partitions = residuals.rchunks_mut(partition_len).rev();
 
         if partitions.len() != partition_count {
             return Err(Error::InvalidPartitionOrder);
